@@ -5,6 +5,8 @@ mod congestion;
 mod incoming;
 mod reconnection;
 mod rtt;
+#[cfg(feature = "verif-hooks")]
+mod verif;
 
 use std::net::IpAddr;
 
